@@ -288,8 +288,11 @@ impl DIDUrl {
     let url: RelativeDIDUrl = {
       let mut url: RelativeDIDUrl = RelativeDIDUrl::new();
       url.set_path(Some(did_url.path()))?;
-      url.set_query(did_url.query())?;
-      url.set_fragment(did_url.fragment())?;
+      // `query()` and `fragment()` exclude their delimiter, while the setters tolerate (and strip) one leading delimiter.
+      // Hand the components over with their delimiter: a `?` that is part of the query (`did:a:b??c`) is then kept, and a
+      // delimiter without content (`did:a:b?`, `did:a:b#`) is rejected as the setters do, instead of being dropped.
+      url.set_query(did_url.query().map(|query| format!("?{query}")).as_deref())?;
+      url.set_fragment(did_url.fragment().map(|fragment| format!("#{fragment}")).as_deref())?;
       url
     };
 
